@@ -58,7 +58,36 @@ def rule_C12(env):
                 "no choice sequence from the empty stack (within the breadth-first bound) reaches a state where %s is enabled in protocol %d%s" % (
                     k, P, "" if any_true else "; its guard is true on no abstract state at all: the opcode is dead"),
                 PV.op_loc(env, "::can_emit"))
-    # emission leaf writes Op(k): covered by C04/C05 arm identity; here: enabled leaf exists that emits something
+    # (d) every opcode of the row is actually *written* by some enabled emission leaf of that protocol
+    # (an arm may delegate the concrete opcode to another table, e.g. the integer family)
+    import emission as E
+    written = {}
+    for op, lvs in tr.items():
+        if isinstance(lvs, Exception):
+            continue
+        for lf in lvs:
+            if not lf.can_emit or lf.end is not None:
+                continue
+            if lf.flags.get("allow_ext_opcodes") is False or lf.flags.get("allow_buffer_opcodes") is False:
+                continue
+            parts, _ = E.final_parts(lf.writes)
+            if not parts:
+                continue
+            for row, info, pr in E.decode_stream(parts, spec):
+                if row is not None:
+                    for P in PV.applicable_protocols(lf, env):
+                        written.setdefault(P, set()).add(row["name"])
+    for P in sorted(t2):
+        for k in t2[P]:
+            if k in special or isinstance(tr.get(k), Exception):
+                continue
+            res.count("C12.d")
+            row = spec.row(k)
+            if row is not None and row["name"] not in written.get(P, set()):
+                res.add("C12.d", "written/%s/P%d" % (k, P),
+                        "%s is listed for protocol %d and can be chosen, but no emission path writes its opcode byte for that protocol: it never occurs in protocol-%d output" % (
+                            row["name"], P, P), PV.op_loc(env, "::emit_and_process"))
+    res.floor("C12.d", 250, "(protocol, opcode) pairs")
     # (c) dedicated sites: STOP always, PROTO for P>=2, FRAME both framed and unframed for P>=4
     import rules_gen
     for ver in (4, 5):
